@@ -241,7 +241,21 @@ func build(c *Case, plans []runPlan, extra bool) (bo BuildObs) {
 				}
 				if o.K == "node" {
 					key := o.Key
-					err = g.AddLambdaNode(keyName(o.Key), newLambda(o.In, o.Out, func() any { return valueOf(cur[key]) }), opts...)
+					emit := func() any { return valueOf(cur[key]) }
+					if o.Kind == 4 {
+						sub := newGraphH(o.In, o.Out)
+						if err = sub.AddLambdaNode("x", newLambda(o.In, o.Out, emit, 0)); err == nil {
+							if err = sub.AddEdge(compose.START, "x"); err == nil {
+								err = sub.AddEdge("x", compose.END)
+							}
+						}
+						if err != nil {
+							panic("harness: sub graph: " + err.Error())
+						}
+						err = g.AddSubGraph(keyName(o.Key), sub, opts...)
+					} else {
+						err = g.AddLambdaNode(keyName(o.Key), newLambda(o.In, o.Out, emit, o.Kind), opts...)
+					}
 				} else {
 					err = g.AddPassthroughNode(keyName(o.Key), opts...)
 				}
@@ -256,7 +270,7 @@ func build(c *Case, plans []runPlan, extra bool) (bo BuildObs) {
 				for _, e := range o.Choice {
 					choice = append(choice, keyName(e))
 				}
-				err = g.AddBranch(keyName(o.S), newBranch(o.Ty, choice, ends))
+				err = g.AddBranch(keyName(o.S), newBranch(o.Ty, choice, ends, o.Kind))
 			case "compile":
 				ncb := &compileCB{}
 				var ni invoker
